@@ -14,6 +14,14 @@ CLAIMED = {
     ),
 }
 
+CLAIMED["C07"] = dict(
+    category="proof",
+    text="Theorems in coq/Props/Properties_C07.v about an executable Gallina model of lib/io.c (sinks, multiplexer) and of the staging loops of lib/b64.c: the streaming base64url stages equal the one-shot codec for EVERY split into feeds (induction over chunk lists, no bound); the chunking theorem C07_chunking for every chain of lawful stages, sinks and arbitrarily nested multiplexers (structural induction on the chain); failure propagation; buffer capacity invariant; any/all multiplexer verdicts and dropped branches. OpenSSL/zlib-backed stages enter through the stream law (accumulate-then-emit stages proved outright; incremental ones under the prefix-extension hypothesis). Tie: extracted model vs chains built from the public constructors plus a fault-injecting sink, all compositions of short inputs, boundary lengths, every fault position.",
+    design_ref="DESIGN.md section 3 C07",
+    note="Coq kernel; no axioms; hypothesis of C07_prefix_stream (output of a cipher/deflate stage for a longer input extends that for a prefix) is a property of OpenSSL/zlib, not proved; the model's list-at-once semantics is tied to the per-call C code by the correspondence only.",
+    technique="Coq proof (induction on chunk lists and on chain structure) + extracted-model correspondence with fault injection",
+)
+
 NOT_YET = {}
 
 def main():
